@@ -149,10 +149,24 @@ IRREL_OPS = {"C02": NOT_OWNERSHIP, "C04": NOT_OWNERSHIP, "C05": NOT_OWNERSHIP, "
 CAP_OPS = {"wcap", "walign", "reserve", "reservex", "shrinkfit", "shrinkto", "spare", "splitspare"}
 OUT_AT_CAP_OPS = {"C03", "C07", "C08"}
 
+# C12 / C14 / C17 speak about storage (allocator events, capacity, placement) only where their own
+# operations run: the clone, the raw round trip, the operation that calls the ill-behaved callback and the
+# steps / drop of the iterator that holds it.  Elsewhere a capacity or placement difference is the business
+# of C03 / C07 / C08.
+STORAGE = {"alloc", "cap", "place"}
+STORAGE_OPS = {
+    "C12": {"clone", "cloneit"},
+    "C14": {"rawrt"},
+    "C17": {"retain", "dedup", "dedupby", "dedupkey", "dfilter", "rmitem", "resizewith", "splice", "extend", "fromiter",
+            "dropit", "forget", "next", "nextb", "nth", "nthb", "count", "last"},
+}
+
 def fields_at(pid, op):
     f = FIELDS.get(pid, ALL)
     if pid in OUT_AT_CAP_OPS and op in CAP_OPS:
         f = f | {"out", "ret"}
+    if pid in STORAGE_OPS and op not in STORAGE_OPS[pid]:
+        f = f - STORAGE
     return f
 
 def op_relevant(pid, op):
